@@ -68,6 +68,10 @@ class Expect(object):
             kind = {None: 'c', 'GLib.Array': 'array', 'GLib.PtrArray': 'ptr_array', 'GLib.ByteArray': 'byte_array'}.get(nm, 'c')
             kids = [c for c in t.children if c.tag in ('type', 'array')]
             elem = self.type(kids[0], nsname, depth + 1) if kids else ['basic', 'void', True]
+            if kind == 'byte_array':
+                # the element type of a GByteArray carries no information: the compiler deliberately leaves it out of the key
+                # under which it shares type blobs (girnode.c serialize_type), so whichever spelling came first is stored
+                elem = ANY
             length = t.get('length')
             size = t.get('fixed-size')
             zt = t.get('zero-terminated')
